@@ -88,6 +88,64 @@ static void MIR_NO_RETURN prog_err_func (MIR_error_type_t t, const char *fmt, ..
   _exit (0);
 }
 
+/* ---- where did it die?  The generator's level-0 debug stream brackets every whole-function
+   generation ("Code generation of function F:" ... "Code generation for F: ..."); a death between
+   the two is the generator's own (C01's subject), anything else happened while running code. ---- */
+static char gen_trace[256];
+static volatile int gen_depth;
+static ssize_t gen_trace_write (void *c, const char *buf, size_t n) {
+  static const char b[] = "Code generation of function ", e[] = "  Code generation for ";
+  if (n >= sizeof (b) - 1 && memcmp (buf, b, sizeof (b) - 1) == 0) {
+    size_t k = n - (sizeof (b) - 1);
+    if (k > sizeof (gen_trace) - 1) k = sizeof (gen_trace) - 1;
+    memcpy (gen_trace, buf + sizeof (b) - 1, k);
+    gen_trace[k] = 0;
+    for (char *q = gen_trace; *q; q++)
+      if (*q == ':' || *q == '\n') *q = 0;
+    gen_depth = 1;
+  } else if (n >= sizeof (e) - 1 && memcmp (buf, e, sizeof (e) - 1) == 0)
+    gen_depth = 0;
+  return (ssize_t) n;
+}
+static void die_report (const char *how, int n) {
+  char msg[400];
+  int len = gen_depth ? snprintf (msg, sizeof (msg), " CRASH:gen:%s:%s%d\n", gen_trace, how, n)
+                      : snprintf (msg, sizeof (msg), " CRASH:run:%s%d\n", how, n);
+  fflush (stdout);
+  if (write (1, msg, len) < 0) {}
+}
+static void on_signal (int sig) {
+  die_report ("sig", sig);
+  _exit (100);
+}
+static int normal_end;
+static void on_exit_hook (void) { /* the library called exit () */
+  if (!normal_end) die_report ("exit", 1);
+}
+static void install_death_reports (void) {
+  int sigs[] = {SIGSEGV, SIGBUS, SIGILL, SIGFPE, SIGABRT, SIGALRM};
+  static char altstack[1 << 16];
+  stack_t ss = {.ss_sp = altstack, .ss_size = sizeof (altstack), .ss_flags = 0};
+  sigaltstack (&ss, NULL);
+  for (size_t i = 0; i < sizeof (sigs) / sizeof (sigs[0]); i++) {
+    struct sigaction sa;
+    memset (&sa, 0, sizeof (sa));
+    sa.sa_handler = on_signal;
+    sa.sa_flags = SA_ONSTACK;
+    sigaction (sigs[i], &sa, NULL);
+  }
+  atexit (on_exit_hook);
+}
+static void trace_generator (void) { /* after MIR_gen_init */
+  cookie_io_functions_t io = {NULL, gen_trace_write, NULL, NULL};
+  FILE *f = fopencookie (NULL, "w", io);
+  setvbuf (f, NULL, _IOLBF, 0);
+  if (getenv ("C03_GENDEBUG") == NULL) {
+    MIR_gen_set_debug_file (ctx, f);
+    MIR_gen_set_debug_level (ctx, 0);
+  }
+}
+
 /* ---- program ---- */
 static MIR_module_t p_mods[MAXMOD];
 static int p_nmods;
@@ -252,14 +310,16 @@ static void per_line_fork (void (*f) (char *)) {
     fflush (stdout);
     pid_t pid = fork ();
     if (pid == 0) {
+      install_death_reports ();
       alarm (60);
       f (line);
       fflush (stdout);
+      normal_end = 1;
       _exit (0);
     }
     int st;
     waitpid (pid, &st, 0);
-    if (WIFSIGNALED (st)) printf (" CRASH:sig%d\n", WTERMSIG (st));
+    if (WIFSIGNALED (st)) printf (" CRASH:run:sig%d\n", WTERMSIG (st)); /* not caught by the child */
     fflush (stdout);
   }
 }
